@@ -149,7 +149,7 @@ def write_replay(pid: str, r: dict, tag: str = "") -> str:
     body = dict(format=1, property=pid, seed=r.get("seed"), plan=r.get("plan"), decisions=r.get("decisions"), widths=r.get("widths"),
                 expect=dict(clause=(r.get("violations") or [{}])[0].get("clause"), signature=(r.get("violations") or [{}])[0].get("signature"),
                             event_digest=r.get("event_digest"), detail=(r.get("violations") or [{}])[0]),
-                repo_head=_repo_head(), minimised=bool(r.get("minimised")))
+                repo_head=_repo_head(), minimised=bool(r.get("minimised")), minimisation=r.get("minimisation"))
     with open(path, "w") as f:
         json.dump(body, f, indent=1, default=str)
     return path
